@@ -23,7 +23,7 @@ PROPS = {
         ],
     },
     "C13": {
-        "units": ["storage"],
+        "units": ["storage", "config"],
         "design_ref": "DESIGN.md section 5 C13",
         "technique": "Verus function contracts over ghost open/chown events",
         "text": "Deductive proof that a created file gets the mode configured for its type (0600 pinned for accounts), that key and "
@@ -33,6 +33,21 @@ PROPS = {
             "T: open(2) applies mode & ~umask at creation only; nix user/group lookup as modelled (user_db/group_db)",
             "T: `s.bytes().all(|b| b.is_ascii_digit())` and `s.parse::<u32>()` are the uninterpreted all_digits / parse_u32_spec",
             "X: how FileManager is filled from the configuration (MainEventLoop::new); observing real files",
+        ],
+    },
+    "C14": {
+        "units": ["config"],
+        "design_ref": "DESIGN.md section 5 C14",
+        "technique": "Verus function contracts: three-level getters against a 'most specific wins' spec function; include loop with ghost set of opened files",
+        "text": "Deductive proof that renew_delay, random_early_renew, file_name_format and the storage directory resolve to the most "
+                "specific value given (certificate, endpoint, global, default 30d/0/build-time format), that unresolved endpoint, rate-limit, "
+                "hook and group references are errors, that each configuration file is opened at most once (include recursion terminates), "
+                "lists of included files are appended and each of the 15 global options takes the later file's value.",
+        "assumptions": [
+            "T: canonicalize returns a path from a finite universe of configuration files; toml/serde deserialisation; glob expansion (get_cnf_path is a stub)",
+            "T: derive(Clone)/derive(Default) of the config structs mean structural copy / empty lists (restated as trusted specs)",
+            "T: parse_duration is the uninterpreted pd_spec here (its own contract is proved in unit duration)",
+            "X: duplicate certificate id and unknown account (MainEventLoop::new); global env dispatch to certificates (HashMap iteration)",
         ],
     },
     "C17": {
@@ -48,7 +63,7 @@ PROPS = {
         ],
     },
     "C19": {
-        "units": ["duration", "ratelimit"],
+        "units": ["duration", "ratelimit", "config"],
         "design_ref": "DESIGN.md section 5 C19",
         "technique": "Verus safety obligations (overflow, division, unwrap, termination) + value contracts on the period parser",
         "text": "Deductive proof that the period parser, the limiter constructor and its sleep computation have no failing "
@@ -74,7 +89,7 @@ PROPS = {
         ],
     },
     "C18": {
-        "units": ["http"],
+        "units": ["http", "config"],
         "design_ref": "DESIGN.md section 5 C18",
         "technique": "Verus call-site preconditions on the transmission shim (client built from exactly the configured roots, no insecure switch)",
         "text": "Deductive proof that every request of http.rs is sent through a client whose added roots are exactly the "
@@ -83,7 +98,7 @@ PROPS = {
         "assumptions": [
             "T: reqwest/native-tls validate the chain and host name against system roots plus the added roots (the validation itself is not modelled)",
             "T: the ClientBuilder/Client/RequestBuilder ghost views in prelude/reqwest.rs (roots, insecure) reflect the library",
-            "X: which files end up in Endpoint.root_certificates (command line + endpoint + global) is config.rs::to_generic",
+            "X: how the command-line list reaches to_generic (main.rs / MainEventLoop::new)",
         ],
     },
     "C09": {
